@@ -381,6 +381,13 @@ class Reconfigure:
             reference_branch = branch.Branch.open(self._select_bind_location())
             if reference_branch.last_revision() != self.local_branch.last_revision():
                 raise UnsyncedBranches(self.controldir, reference_branch)
+            # The local branch is about to be destroyed and its tags merged
+            # into the reference branch, which keeps its own value for a tag
+            # that both define: such a tag would be lost without notice.
+            reference_tags = reference_branch.tags.get_tag_dict()
+            for name, value in self.local_branch.tags.get_tag_dict().items():
+                if reference_tags.get(name, value) != value:
+                    raise UnsyncedBranches(self.controldir, reference_branch)
 
     def _select_bind_location(self):
         """Select a location to bind or create a reference to.
@@ -412,6 +419,18 @@ class Reconfigure:
             return self.referenced_branch.base
         raise NoBindLocation(self.controldir)
 
+    def _fetch_pending_merges(self, repo, source_repository):
+        """Copy the revisions merged into the tree but not yet committed.
+
+        They are not in the ancestry of the branch tip, but the tree that is
+        kept still names them as parents.
+        """
+        if self.tree is None or self._destroy_tree:
+            return
+        for revision_id in self.tree.get_parent_ids()[1:]:
+            if source_repository.has_revision(revision_id):
+                repo.fetch(source_repository, revision_id)
+
     def apply(self, force=False):
         """Apply the reconfiguration.
 
@@ -424,6 +443,10 @@ class Reconfigure:
         """
         if not force:
             self._check()
+        if self._bind or self._create_reference:
+            # Fail before anything is changed if there is nothing to bind or
+            # refer to.
+            self._select_bind_location()
         if self._create_repository:
             if self.local_branch and not self._destroy_branch:
                 old_repo = self.local_branch.repository
@@ -440,6 +463,7 @@ class Reconfigure:
                 repo.fetch(
                     self.local_branch.repository, self.local_branch.last_revision()
                 )
+                self._fetch_pending_merges(repo, self.local_branch.repository)
         else:
             repo = self.repository
         if self._create_branch and self.referenced_branch is not None:
@@ -447,8 +471,13 @@ class Reconfigure:
                 self.referenced_branch.repository,
                 self.referenced_branch.last_revision(),
             )
+            self._fetch_pending_merges(repo, self.referenced_branch.repository)
         if self._create_reference:
             reference_branch = branch.Branch.open(self._select_bind_location())
+            if self.repository is not None:
+                self._fetch_pending_merges(
+                    reference_branch.repository, self.repository
+                )
         if self._destroy_repository:
             if self._create_reference:
                 reference_branch.repository.fetch(self.repository)
